@@ -476,6 +476,12 @@ class NpEval:
                 if np.any(np.asarray(b) < 0):
                     self.exclude("integer power with negative exponent")
                     return np.zeros(np.broadcast_shapes(np.shape(a), np.shape(b)), ra)
+            if op == "pow":
+                an, bn = np.asarray(a), np.asarray(b)
+                if np.any(an == 0) and np.any(bn.real < 0 if bn.dtype.kind == "c" else bn < 0):
+                    self.exclude("0 ** negative (sign of the infinity depends on the sign of zero)")
+                if bn.dtype.kind in "iu" and bn.size:
+                    self.nred = max(self.nred, int(np.abs(bn).max()))
             r = BINOPS[op](a, b)
             if op in ("add", "sub", "mul", "pow"):
                 self._intcheck(op, a, b, r)
@@ -495,7 +501,10 @@ class NpEval:
         if h == "mm":
             return getattr(np, t[1])(E(t[2]), E(t[3]))
         if h == "arctan2":
-            return np.arctan2(E(t[1]), E(t[2]))
+            a, b = E(t[1]), E(t[2])
+            if np.any(np.asarray(a) == 0) or np.any(np.asarray(b) == 0):
+                self.exclude("arctan2 with a zero operand (result depends on the sign of zero)")
+            return np.arctan2(a, b)
         if h == "where":
             return np.where(E(t[1]), E(t[2]), E(t[3]))
         if h == "astype":
@@ -511,6 +520,8 @@ class NpEval:
                 n *= a.shape[i]
             self.nred = max(self.nred, n)
             r = getattr(np, t[1])(a, axis=ax)
+            if t[1] in ("sum", "prod"):
+                self._sum_operands_finite(a)
             if t[1] in ("amax", "amin") and a.dtype.kind in "fc" and np.isnan(a).any():
                 self.exclude("NaN in max/min reduction (pytato documents NaN propagation only for maximum/minimum)")
             if t[1] in ("sum", "prod") and a.dtype.kind in "iub":
@@ -522,6 +533,7 @@ class NpEval:
             return r
         if h == "einsum":
             args = [np.asarray(E(a)) for a in t[2:]]
+            self._sum_operands_finite(*args)
             self._note_einsum_nred(t[1], args)
             r = np.einsum(t[1], *args)
             if r.dtype.kind in "iu":
@@ -532,15 +544,18 @@ class NpEval:
             return r
         if h == "matmul":
             a, b = np.asarray(E(t[1])), np.asarray(E(t[2]))
+            self._sum_operands_finite(a, b)
             self.nred = max(self.nred, a.shape[-1] if a.ndim else 1)
             return a @ b
         if h == "dot":
             a, b = E(t[1]), E(t[2])
+            self._sum_operands_finite(a, b)
             if np.ndim(a):
                 self.nred = max(self.nred, np.shape(a)[-1])
             return np.dot(a, b)
         if h == "vdot":
             a, b = E(t[1]), E(t[2])
+            self._sum_operands_finite(a, b)
             self.nred = max(self.nred, np.size(a))
             return np.vdot(a, b)
         if h == "stack":
@@ -590,6 +605,7 @@ class NpEval:
             nr, nc = t[1]
             vals, cols, rs = (np.asarray(E(x)) for x in (t[2], t[3], t[4]))
             x = np.asarray(E(t[5]))
+            self._sum_operands_finite(vals, x)
             dense = np.zeros((nr, nc), vals.dtype)
             for r in range(nr):
                 for j in range(int(rs[r]), int(rs[r + 1])):
@@ -610,6 +626,14 @@ class NpEval:
         if h == "lpout":
             return E(t[1])[t[2]]
         raise ValueError(f"unknown term head {h!r}")
+
+    def _sum_operands_finite(self, *arrs):
+        """inf/NaN operands of a sum-type reduction: inf - inf, 0 * inf make the result
+        depend on evaluation order and on which zero terms are skipped (sparse / empty sums)"""
+        for a in arrs:
+            a = np.asarray(a)
+            if a.dtype.kind in "fc" and a.size and not np.all(np.isfinite(a)):
+                self.exclude("non-finite operand of a sum-type reduction (order dependent)")
 
     def _note_einsum_nred(self, spec, args):
         ins, out = spec.replace(" ", "").split("->") if "->" in spec else (spec, None)
